@@ -129,6 +129,8 @@ CHECKS = {
             {"name": "boundary", "pkg": "proxy", "run": "^TestVF_C20_Boundary$", "rapid": False, "rlimit_as_gb": 24},
             {"name": "random", "pkg": "proxy", "run": "^TestVF_C20_Random$", "rlimit_as_gb": 24,
              "checks": {"quick": 1500, "thorough": 15000}, "shards": {"quick": 2, "thorough": 12}},
+            {"name": "parallel", "pkg": "proxy", "run": "^TestVF_C20_Parallel$", "rlimit_as_gb": 24,
+             "checks": {"quick": 60, "thorough": 1500}, "shards": {"quick": 1, "thorough": 2}},
         ],
     },
     "C06": {
@@ -305,6 +307,7 @@ CHECKS = {
              "checks": {"quick": 700, "thorough": 8000}, "shards": {"quick": 4, "thorough": 16}},
             {"name": "notifyorder", "pkg": "transport/grpcutil", "run": "^TestVF_C11_NotifyOrder$", "rapid": False},
             {"name": "dialoverlap", "pkg": "transport/grpcutil", "run": "^TestVF_C11_DialOverlap$", "rapid": False},
+            {"name": "silentpeer", "pkg": "transport/grpcutil", "run": "^TestVF_C11_SilentPeer$", "rapid": False},
         ],
     },
     "C19": {
